@@ -33,7 +33,10 @@ def build_arg(call, known, rng, variant):
         return [mx], ("pyint" if variant % 2 == 0 else "int64"), "scalar"
     vals = list(vals)
     rng.shuffle(vals)
-    dtype = "uint32" if variant % 4 == 1 else "int64"
+    # the integer type rotates over every type that can hold the largest value (a table / cache keyed or sized by one
+    # type must not serve another wrongly)
+    cands = [t_ for t_ in ("int64", "uint32", "uint16", "int32", "uint64", "uint8", "int16", "int8") if mx <= np.iinfo(getattr(np, t_)).max]
+    dtype = cands[(variant // 4 + variant) % len(cands)]
     layout = {2: "2d", 3: "strided"}.get(variant % 4, "1d")
     if layout == "2d" and len(vals) % 2:
         layout = "1d"
